@@ -171,6 +171,16 @@ theorem attr_element_dm (lead : List Nat) (r c i j : Nat) (hi : i < r) (hj : j <
 
 example : selDM [3, 2] 3 2 [2, 1] = .ok 5 ∧ selDM [4, 3] 3 1 [2, 1] = .ok 1 := ⟨rfl, rfl⟩
 
+/-- A non-scalar MX attribute (an expression of array parameters, shape `(r, c)` = the variable's
+    MX shape): the scalar `(i, j)` reads the storage position of element `(i, j)` — the same
+    position `elemPos` the renamed point uses — and a 1-D variable's scalar `i` reads position `i`. -/
+theorem attr_element_mx (r c i j : Nat) (hi : i < r) (hj : j < c) :
+    selMX r c [i, j] = .ok (elemPos [r, c] [i, j]) ∧ selMX r 1 [i] = .ok (elemPos [r] [i]) := by
+  have h1 : i < r * 1 := by omega
+  simp [selMX, elemPos, hi, hj, h1]
+
+example : selMX 2 3 [1, 2] = .ok 5 ∧ selMX 2 3 [0, 1] = .ok 2 := ⟨rfl, rfl⟩
+
 /-! ## Outputs and delay states -/
 
 /-- An output that is an array variable is replaced, in place, by the variable's scalars in
